@@ -90,9 +90,9 @@ func (p *Program) c07InvocationList(call Call) (ssa.Value, string) {
 	return s, ""
 }
 
-// c07Delayed: every path to site passes a complete revision-0 delay loop over `list` (any
-// ObjectSet list when list is nil), in the site's function or, bounded, in every caller.
-func (p *Program) c07Delayed(site ssa.Instruction, list ssa.Value, depth int) (bool, string) {
+// c07DelayLoopBefore: every path to site (within its function) passes a complete revision-0 delay
+// loop over `list` (any ObjectSet list when list is nil).
+func (p *Program) c07DelayLoopBefore(site ssa.Instruction, list ssa.Value) (bool, string) {
 	fn := site.Parent()
 	var whys []string
 	why := "no loop over the listed ObjectSets precedes it"
@@ -129,6 +129,68 @@ func (p *Program) c07Delayed(site ssa.Instruction, list ssa.Value, depth int) (b
 			return true, "delay loop over " + p.describe(l.Slice) + " tests GetRevision()==0 of every element at " + p.IPos(tb.Instrs[len(tb.Instrs)-1])
 		}
 		setWhy(w + at)
+	}
+	return false, why
+}
+
+// c07Delayed: every path to site passes a complete revision-0 delay loop over `list` (any
+// ObjectSet list when list is nil), in the site's function or, bounded, in every caller.
+func (p *Program) c07Delayed(site ssa.Instruction, list ssa.Value, depth int) (bool, string) {
+	fn := site.Parent()
+	ok, why := p.c07DelayLoopBefore(site, list)
+	if ok {
+		return true, why
+	}
+	// the delay loop may have been extracted into a boolean helper (`if anyUnset(list) { return }`):
+	// the site is guarded by the helper's result, and every return of the helper that produces this
+	// result lies behind a complete delay loop over the helper's list parameter
+	for _, f := range p.FactsAtX(site.Block()) {
+		call, isCall := stripConv(f.Cond).(*ssa.Call)
+		if !isCall {
+			continue
+		}
+		h := staticCallee(call.Common())
+		if h == nil || !p.inlinable(h) || h == fn || h.Signature.Results().Len() != 1 {
+			continue
+		}
+		var prm *ssa.Parameter
+		for i, a := range call.Common().Args {
+			if i < len(h.Params) && rvIsAccessorSlice(a.Type()) && (list == nil || p.sameValue(a, list)) {
+				prm = h.Params[i]
+			}
+		}
+		if prm == nil {
+			continue
+		}
+		n, good := 0, true
+		note := ""
+		for _, rc := range p.returnCases(h) {
+			if h.Recover != nil && rc.Ret.Block() == h.Recover {
+				continue
+			}
+			if len(rc.Results) != 1 || rc.Results[0] == nil {
+				good = false
+				break
+			}
+			cb, isC := constBool(rc.Results[0])
+			if !isC {
+				good = false
+				break
+			}
+			if cb != f.Pol {
+				continue
+			}
+			n++
+			okl, w := p.c07DelayLoopBefore(rc.Ret, prm)
+			if !okl {
+				good = false
+				break
+			}
+			note = w
+		}
+		if good && n > 0 {
+			return true, "guarded by " + p.describeFact(f) + ": " + note
+		}
 	}
 	if depth <= 0 {
 		return false, why + " in " + shortFuncID(fn)
@@ -817,6 +879,7 @@ func (p *Program) c07CheckControllerRef(b c07Builder) (problems []string) {
 // c07IsLatestOfPrev: v is the revision of the last element of the previous list (directly or via
 // a helper that returns it).
 func (p *Program) c07IsLatestOfPrev(v, prev ssa.Value, depth int) bool {
+	v = p.rvParamRoot(v) // the value may have been handed to an extracted helper
 	if recv, _, ok := rvMethodOn(v, "GetRevision"); ok {
 		ia := rvElemAddr(recv)
 		return ia != nil && p.sameValue(ia.X, prev) && p.rvIsLastIndexOf(ia.Index, ia.X)
@@ -906,6 +969,8 @@ func c07r4(c *Ctx) {
 			if !after[rc.Ret] || len(rc.Results) != 2 {
 				continue
 			}
+			// the reuse test may be materialised in an extracted boolean helper
+			rc.Facts = p.xImplied(rc.Facts)
 			errRes := rc.Results[1]
 			if errRes == nil {
 				c.Ob(fn, "return-after-create", rc.Ret, c.rule.Statement).Unknown("error result cannot be resolved")
@@ -1046,6 +1111,11 @@ func (p *Program) c07IsUIDOf(v, acc ssa.Value) bool {
 
 func (p *Program) c07IsControllerUIDOf(v, acc ssa.Value) bool {
 	root, path := rvFieldPath(v)
+	if prm, isP := stripConv(root).(*ssa.Parameter); isP {
+		// the controller reference was handed to an extracted helper
+		r2, p2 := rvFieldPath(p.rvParamRoot(prm))
+		root, path = r2, append(p2, path...)
+	}
 	if strings.Join(path, ".") != "UID" {
 		return false
 	}
